@@ -9,7 +9,7 @@ under $TMPDIR; it is never required and is keyed on every byte the front end rea
 import hashlib, json, os, pickle, re, shutil, subprocess, sys, tempfile, time
 from concurrent.futures import ProcessPoolExecutor
 
-LOADER_VERSION = 'fe-10'
+LOADER_VERSION = 'fe-11'
 SRC_DIRS = ('libjwt', 'include', 'tools', 'cmake')
 SRC_FILES = ('CMakeLists.txt',)
 
@@ -265,16 +265,21 @@ def _annotate(node, unit, lm, filecache, repo):
             # partially initialised array: clang lists [filler, explicit elements...]; C fills the rest with zero.  Expand to the
             # declared size so that every consumer sees the table the program has.
             af = n['array_filler']
-            explicit = [x for x in af if isinstance(x, dict) and x.get('kind') != 'ImplicitValueInitExpr']
+            # af[0] is the filler expression itself; af[1:] are the elements in index order, holes (designated initialisers that skip
+            # an index) being ImplicitValueInitExpr nodes, which stay in place; only the tail after the last explicit element is missing
+            elems = [x for x in af[1:] if isinstance(x, dict)]
             import re as _re
             m_ = _re.search(r'\[(\d+)\]$', n.get('type', {}).get('qualType', ''))
-            et = (af[0].get('type', {}).get('qualType', '') if af and isinstance(af[0], dict) else '')
-            if m_ and int(m_.group(1)) <= 65536 and _re.sub(r'\b(const|volatile|unsigned|signed)\b', '', et).strip() in ('char', 'int', 'short', 'long', ''):
-                fill = int(m_.group(1)) - len(explicit)
+            t0 = af[0].get('type', {}) if af and isinstance(af[0], dict) else {}
+            et = t0.get('desugaredQualType') or t0.get('qualType', '')
+            base = _re.sub(r'\b(const|volatile|unsigned|signed)\b', '', et).strip()
+            scalar = base in ('char', 'int', 'short', 'long', 'long long', '', '_Bool') or base.endswith('*') or '(*' in base or base.startswith('enum ')
+            if m_ and int(m_.group(1)) <= 65536 and scalar:
+                fill = int(m_.group(1)) - len(elems)
                 zero = {'kind': 'IntegerLiteral', 'value': '0', 'type': {'qualType': 'int'}, 'valueCategory': 'prvalue', '_implicit_zero': True}
-                n['inner'] = explicit + [dict(zero) for _ in range(max(fill, 0))]
+                n['inner'] = elems + [dict(zero) for _ in range(max(fill, 0))]
             else:
-                n['inner'] = explicit
+                n['inner'] = elems
         r = n.get('range', {}).get('begin')
         if r:
             exp = r.get('expansionLoc')
